@@ -262,6 +262,30 @@ def run(tier, seed, replay):
     for label, data in (("blank-line", good[0] + "\n\n" + good[1] + "\n"), ("crlf", good[0] + "\r\n")):
         rc, _, _ = sh([T["jwt-verify"], "-q", "-k", hkey, "-"], inp=data.encode())
         rep.count("unjudged_stdin_%s_rc%d" % (label, rc))
+    # --print: the command runs once for the header and once for the payload; a non-zero status of either fails the token (usage text)
+    rc, out, err = sh([T["jwt-generate"], "-q", "-k", hkey, "-c", "s:sub=alice"])
+    m = TOKEN_RE.search(out)
+    if rc == 0 and m:
+        ptok = m.group(0)
+        for label, cmd, vpass, gpass in (("fails-on-header-only", "grep -q sub", False, False), ("fails-on-payload-only", "grep -q typ", False, False),
+                                         ("passes-both", "grep -q {", True, True), ("fails-both", "false", False, False),
+                                         ("passes-both-cat", "cat", True, True)):
+            for sp in (["-p", cmd], ["--print=" + cmd], ["--print", cmd]):
+                rc1, o1, e1 = sh([T["jwt-verify"], "-v", "-k", hkey] + sp + [ptok])
+                rc3, o3, e3 = sh([T["jwt-verify"], "-v", "-k", hkey] + sp + [good[0], ptok, good[1]])
+                rc2, o2, e2 = sh([T["jwt-generate"], "-v", "-k", hkey, "-c", "s:sub=alice"] + sp)
+                rep.evaluations += 3
+                rep.count("print_command_cases")
+                rep.distinct.add(("print-status", label, sp[0].split("=")[0]))
+                if (rc1 == 0) != vpass or (rc3 == 0) != (vpass and label.startswith("passes")):
+                    rep.violation("jwt-verify-print-status:%s" % label, "jwt-verify -v %s: exit %d / %d (list), the command %s" % (sp[0], rc1, rc3, label),
+                                  dict(cmd=cmd, spelling=sp[0], rc_single=rc1, rc_list=rc3, stderr=e1[-200:]))
+                tokout = TOKEN_RE.search(o2)
+                if ((rc2 == 0) != gpass) or (bool(tokout) != gpass):
+                    rep.violation("jwt-generate-print-status:%s" % label, "jwt-generate -v %s: exit %d, token printed: %s, the command %s" % (sp[0], rc2, bool(tokout), label),
+                                  dict(cmd=cmd, spelling=sp[0], rc=rc2, stdout=o2[:200]))
+    else:
+        rep.violation("jwt-generate-fails:print-stage", "cannot make the token for the --print stage", dict(rc=rc, stderr=err[-300:]))
     # key-less (alg none) lists
     rc, out, err = sh([T["jwt-generate"], "-q", "-c", "s:iss=x"])
     m = TOKEN_RE.search(out)
